@@ -734,7 +734,7 @@ Qed.
 
 Definition benign_here (x : cst) (e : cev) : Prop :=
   match e with
-  | CEnd c => let cn := find_conn (c_conns x) c in cn_ended cn = true \/ (cn_tasks cn = [] /\ cn_inbox cn = [])
+  | CEnd c => let cn := find_conn (c_conns x) c in cn_ended cn = true \/ cn_tasks cn = []
   | _ => True
   end.
 
@@ -760,12 +760,12 @@ Proof.
 Qed.
 
 (* one benign connection event: the messages it causes contain no release by a non-holder *)
-Lemma cstep_benign : forall x h e x' ms gss,
-  CInv (c_conns x) h -> benign_here x e -> cstep x e = (x', ms, gss) ->
+Lemma cstep_plain_benign : forall x h e x' ms gss,
+  CInv (c_conns x) h -> (forall c, e <> CEnd c) -> cstep_plain x e = (x', ms, gss) ->
   foreign_from (c_svc x) h ms = false /\
   c_svc x' = fst (ghost_after (c_svc x) h ms) /\ CInv (c_conns x') (snd (ghost_after (c_svc x) h ms)).
 Proof.
-  intros x h e x' ms gss HI Hb H. unfold cstep in H.
+  intros x h e x' ms gss HI Hb H. unfold cstep_plain in H.
   destruct (cev_msgs (c_conns x) e) as [ms0 cs1] eqn:Em.
   destruct (steps (c_svc x) ms0) as [s' gss0] eqn:Es. inversion H; subst x' ms gss. clear H. cbn [c_svc c_conns].
   assert (Hsingle : forall m cs1', ms0 = [m] -> bad_unlock (c_svc x) h m = false -> CInv cs1' (gh_msg h m) -> cs1 = cs1' ->
@@ -815,20 +815,72 @@ Proof.
         apply Permutation_app_tail. change ((c, r) :: map (pair c) (cn_inbox old ++ remove_one_N r (cn_tasks old))) with (map (pair c) (r :: cn_inbox old ++ remove_one_N r (cn_tasks old))).
         apply Permutation_map. eapply perm_trans; [apply Permutation_app_head; apply (remove_one_N_perm r _ Er)|].
         apply Permutation_sym. apply Permutation_middle.
-  - cbn [benign_here] in Hb.
-    destruct (cn_ended (find_conn (c_conns x) c)) eqn:Ee; [inversion Em; subst; apply (Hnone (c_conns x)); auto|].
-    destruct Hb as [Hb|[Ht Hi]]; [discriminate|].
-    assert (Ha : cn_acq (find_conn (c_conns x) c) = []).
-    { destruct (cn_acq (find_conn (c_conns x) c)) as [|y t] eqn:Ea; [reflexivity|]. exfalso.
-      destruct (find_conn_in_or_default (c_conns x) c) as [Hin|Hd].
-      - pose proof (ci_acq _ _ HI _ Hin y) as Hy. rewrite Ea, Ht in Hy. apply Hy. left. reflexivity.
-      - rewrite Hd in Ea. discriminate. }
-    rewrite Ha in Em. cbn [map app] in Em. inversion Em; subst.
-    eapply Hsingle; [reflexivity | reflexivity | | reflexivity].
-    cbn [gh_msg]. apply (set_conn_inv (c_conns x) h); [exact HI | cbn [cn_acq]; intros y [] |].
-    cbn [cn_c]. unfold items at 1. cbn [cn_c cn_inbox cn_tasks].
-    pose proof (flat_split' (c_conns x) c (ci_nd _ _ HI)) as Hs.
-    eapply perm_trans; [exact (ci_h _ _ HI) | exact Hs].
+  - exfalso. apply (Hb c). reflexivity.
+Qed.
+
+(* closing and draining the lock channel: every room taken out of it is held by that connection *)
+Lemma drain_benign : forall n c s cs h s' cs' ms gss,
+  CInv cs h -> drain n c s cs = (s', cs', ms, gss) ->
+  foreign_from s h ms = false /\ s' = fst (ghost_after s h ms) /\ CInv cs' (snd (ghost_after s h ms)).
+Proof.
+  induction n as [|n IH]; intros c s cs h s' cs' ms gss HI H; cbn [drain] in H.
+  - inversion H; subst. cbn. split; [reflexivity|]. split; [reflexivity | exact HI].
+  - destruct (cn_inbox (find_conn cs c)) as [|r rest] eqn:Ei.
+    + inversion H; subst. cbn. split; [reflexivity|]. split; [reflexivity | exact HI].
+    + destruct (step s (Unlock c r)) as [s1 g] eqn:E1.
+      match type of H with context [drain n c s1 ?t1] => set (cs1 := t1) in H end.
+      destruct (drain n c s1 cs1) as [[[s2 cs2] ms2] gss2] eqn:Ed. inversion H; subst s' cs' ms gss. clear H.
+      pose proof (flat_split' cs c (ci_nd _ _ HI)) as Hs. rewrite Ei in Hs.
+      assert (Hin : In (c, r) h).
+      { eapply Permutation_in; [apply Permutation_sym; eapply perm_trans; [exact (ci_h _ _ HI) | exact Hs]|]. left. reflexivity. }
+      assert (HI1 : CInv cs1 (gh_grants (gh_msg h (Unlock c r)) g)).
+      { unfold cs1. apply deliver_inv. cbn [gh_msg]. apply (set_conn_inv cs h); [exact HI | |].
+        - cbn [cn_acq cn_tasks]. destruct (find_conn_in_or_default cs c) as [Hi|Hd]; [exact (ci_acq _ _ HI _ Hi) | rewrite Hd; intros y []].
+        - cbn [cn_c]. unfold items at 1. cbn [cn_c cn_inbox cn_tasks].
+          apply Permutation_cons_inv with (a := (c, r)).
+          eapply perm_trans; [apply Permutation_sym; apply remove_one_perm_cons; exact Hin|].
+          eapply perm_trans; [exact (ci_h _ _ HI) | exact Hs]. }
+      destruct (IH c s1 cs1 _ s2 cs2 ms2 gss2 HI1 Ed) as (F & S & I2).
+      rewrite foreign_from_cons, E1. cbn [fst snd ghost_after]. rewrite E1.
+      assert (Hbad : bad_unlock s h (Unlock c r) = false).
+      { cbn [bad_unlock]. apply mem_pair_In in Hin. rewrite Hin. reflexivity. }
+      rewrite Hbad. cbn [orb]. split; [exact F|]. split; [exact S | exact I2].
+Qed.
+
+Lemma cend_benign : forall x h c x' ms gss,
+  CInv (c_conns x) h -> cn_tasks (find_conn (c_conns x) c) = [] -> cend x c = (x', ms, gss) ->
+  foreign_from (c_svc x) h ms = false /\
+  c_svc x' = fst (ghost_after (c_svc x) h ms) /\ CInv (c_conns x') (snd (ghost_after (c_svc x) h ms)).
+Proof.
+  intros x h c x' ms gss HI Ht H. unfold cend in H.
+  assert (Ha : cn_acq (find_conn (c_conns x) c) = []).
+  { destruct (cn_acq (find_conn (c_conns x) c)) as [|y t] eqn:Ea; [reflexivity|]. exfalso.
+    destruct (find_conn_in_or_default (c_conns x) c) as [Hin|Hd].
+    - pose proof (ci_acq _ _ HI _ Hin y) as Hy. rewrite Ea, Ht in Hy. apply Hy. left. reflexivity.
+    - rewrite Hd in Ea. discriminate. }
+  rewrite Ha in H. cbn [map steps concat deliver fold_left step app] in H.
+  match type of H with context [drain ?t0 c ?t1 ?t2] => set (s2 := t1) in H; set (cs2 := t2) in H; set (n := t0) in H end.
+  destruct (drain n c s2 cs2) as [[[s3 cs3] ms3] gss3] eqn:Ed. inversion H; subst x' ms gss. clear H. cbn [c_svc c_conns].
+  assert (HI2 : CInv cs2 h).
+  { unfold cs2. apply (set_conn_inv (c_conns x) h); [exact HI | |].
+    - cbn [cn_acq cn_tasks]. rewrite Ha. intros y [].
+    - cbn [cn_c]. unfold items at 1. cbn [cn_c cn_inbox cn_tasks].
+      eapply perm_trans; [exact (ci_h _ _ HI) | exact (flat_split' (c_conns x) c (ci_nd _ _ HI))]. }
+  destruct (drain_benign n c s2 cs2 h s3 cs3 ms3 gss3 HI2 Ed) as (F & S & I3).
+  rewrite foreign_from_cons. cbn [bad_unlock step fst snd orb ghost_after gh_msg gh_grants fold_left].
+  fold s2. split; [exact F|]. split; [exact S | exact I3].
+Qed.
+
+Lemma cstep_benign : forall x h e x' ms gss,
+  CInv (c_conns x) h -> benign_here x e -> cstep x e = (x', ms, gss) ->
+  foreign_from (c_svc x) h ms = false /\
+  c_svc x' = fst (ghost_after (c_svc x) h ms) /\ CInv (c_conns x') (snd (ghost_after (c_svc x) h ms)).
+Proof.
+  intros x h e x' ms gss HI Hb H. destruct e as [c rooms|c|c r|c]; cbn [cstep] in H.
+  1-3: (eapply cstep_plain_benign; [exact HI | | exact H]; intros c0 Hc; discriminate Hc).
+  cbn [benign_here] in Hb. destruct (cn_ended (find_conn (c_conns x) c)) eqn:Ee.
+  - inversion H; subst. cbn. split; [reflexivity|]. split; [reflexivity | exact HI].
+  - destruct Hb as [Hb|Hb]; [discriminate|]. exact (cend_benign x h c x' ms gss HI Hb H).
 Qed.
 
 Fixpoint all_benign (x : cst) (es : list cev) : Prop :=
@@ -854,12 +906,12 @@ Proof.
   apply no12_app in H. destruct H as [H1 H2]. split; [|apply IH; exact H2].
   destruct e as [c rooms|c|c r|c]; cbn [benign_here]; auto.
   destruct (cn_ended (find_conn (c_conns x) c)); [left; reflexivity | right].
-  destruct (cn_tasks (find_conn (c_conns x) c)); [|destruct H1 as [H1 _]; cbn in H1; discriminate].
-  destruct (cn_inbox (find_conn (c_conns x) c)); [auto|]. destruct H1 as [_ H1]. cbn in H1. discriminate.
+  destruct (cn_tasks (find_conn (c_conns x) c)); [reflexivity|]. destruct H1 as [H1 _]. cbn in H1. discriminate.
 Qed.
 
-(* a connection-level history in which no connection ends while one of its room tasks runs or while a
-   grant waits in its channel causes a service history without any release by a non-holder; hence
+(* a connection-level history in which no connection ends while one of its room tasks runs (grants
+   still waiting in its channel are released by the end of the connection itself) causes a service
+   history without any release by a non-holder; hence
    (outside_known) the service history is exclusive, bounded, once, never lost *)
 Theorem conn_benign_service_ok : forall max es,
   known_C20 (CConn max es) = [] ->
@@ -880,7 +932,7 @@ Qed.
    assume about the source, re-read from the source on every run (gen/C20ConnFacts.v) *)
 Lemma conn_facts_as_modelled :
   unlock_carries_owner = false /\ Nat.ltb lock_channel_size 8 = true /\ task_always_unlocks = true /\
-  loop_spawns_oldest_grant = true /\ end_unlocks_acquired = true /\ end_drains_lock_channel = false.
+  loop_spawns_oldest_grant = true /\ end_unlocks_acquired = true /\ end_drains_lock_channel = true.
 Proof. vm_compute. repeat split. Qed.
 
 (* ------------------------------------------------------------------ witnesses *)
@@ -893,12 +945,17 @@ Proof. vm_compute. split; reflexivity. Qed.
    runs, cleanup unlocks, the room is granted again, the old task unlocks again *)
 Definition k1_conn_witness : c20case :=
   CConn 1 [CRequest 1 [5]; CTake 1; CEnd 1; CRequest 2 [5]; CTake 2; CFinish 1 5; CRequest 3 [5]; CTake 3]%N.
-(* K2: a grant that waits in the channel of a connection that ends is never released *)
+(* the former K2 witness (a grant waits in the channel of a connection that ends): repaired by
+   2487a5d, the room and the slot are free again *)
 Definition k2_conn_witness : c20case :=
-  CConn 2 [CRequest 1 [5]; CEnd 1; CRequest 9 [5]]%N.
+  CConn 1 [CRequest 1 [5]; CEnd 1; CRequest 9 [5]; CTake 9; CFinish 9 5; CRequest 8 [6]]%N.
 Lemma refuted_conn :
-  spec_C20 k1_conn_witness (run_C20 k1_conn_witness) = false /\ known_C20 k1_conn_witness = [1%Z] /\
-  spec_C20 k2_conn_witness (run_C20 k2_conn_witness) = false /\ known_C20 k2_conn_witness = [2%Z].
+  spec_C20 k1_conn_witness (run_C20 k1_conn_witness) = false /\ known_C20 k1_conn_witness = [1%Z].
+Proof. vm_compute. repeat split. Qed.
+Lemma end_releases_waiting_grants :
+  known_C20 k2_conn_witness = [] /\ spec_C20 k2_conn_witness (run_C20 k2_conn_witness) = true /\
+  conn_trace 1 [CRequest 1 [5]; CEnd 1; CRequest 9 [5]; CTake 9; CFinish 9 5; CRequest 8 [6]]%N =
+    [Request 1 [5] 0; DropChan 1 0; Unlock 1 5; Request 9 [5] 0; Unlock 9 5; Request 8 [6] 0]%N.
 Proof. vm_compute. repeat split. Qed.
 
 Definition ok_witness : c20case :=
